@@ -102,7 +102,7 @@ def expected(s):
         index, sub = S.le_uint(S.sub(R, 1, 3)), S.byte(R, 3)
         if len(gets) != 1 or len(sets) != 0:
             return False
-        asked = And(compare("==", gets[0][1], index), compare("==", gets[0][2], sub), gets[0][3] is True)
+        asked = And(compare("==", gets[0][1], index), compare("==", gets[0][2], sub), S.is_true(gets[0][3]))
         if bool(p["get_abort"]):
             return And(asked, abort_frame(F, index, sub, p["get_code"]))
         D = p["value"]
@@ -146,7 +146,7 @@ def expected(s):
             if len(sets) != 1:
                 return False
             told = And(compare("==", sets[0][1], index), compare("==", sets[0][2], sub), S.same_bytes(sets[0][3], data),
-                       sets[0][4] is True)
+                       S.is_true(sets[0][4]))
             if bool(p["set_abort"]):
                 return And(told, abort_frame(F, index, sub, p["set_code"]))
             return And(told, ok_frame)
@@ -169,7 +169,7 @@ def expected(s):
             if len(sets) != 1:
                 return False
             told = And(compare("==", sets[0][1], p["idx"]), compare("==", sets[0][2], p["sub"]),
-                       S.same_bytes(sets[0][3], buf), sets[0][4] is True)
+                       S.same_bytes(sets[0][3], buf), S.is_true(sets[0][4]))
             if bool(p["set_abort"]):
                 return And(grown, told, abort_frame(F, p["idx"], p["sub"], p["set_code"]))
         else:
